@@ -9,3 +9,5 @@ import Dashu.Props.C16Gen
 #print axioms Dashu.Props.C16Gen.to_float_assert_is_generated
 #print axioms Dashu.Props.C16Gen.to_float_shift_is_generated
 #print axioms Dashu.Props.C16Gen.to_float_need_digits_in_usize
+#print axioms Dashu.Props.C16Gen.powi_precision_is_generated
+#print axioms Dashu.Props.C16Gen.powi_work_precision_is_c11s
